@@ -69,8 +69,22 @@ def shapes(extra_attrs=()):
     return out
 
 
+def extra_shapes(extra_attrs=()):
+    '''Shapes used by single checks only (not part of shapes(), whose users enumerate all of it).'''
+    x = list(extra_attrs)
+    out = []
+    # (i) one class referring to two classes across two associations with single-valued ends (C02: creation calls whose
+    #     first implied relate is admissible and whose second is not)
+    out.append(Schema('i_two_single_refs',
+                      [('A', [ID] + x), ('B', [ID] + x), ('C', [ID, ('A_Id', 'unique_id'), ('B_Id', 'unique_id')] + x)],
+                      [Assoc(1, 'C', ['A_Id'], False, True, '', 'A', ['Id'], False, True, ''),
+                       Assoc(2, 'C', ['B_Id'], False, True, '', 'B', ['Id'], False, True, '')],
+                      [(k, 'I1', ['Id']) for k in ('A', 'B', 'C')]))
+    return out
+
+
 def by_name(name, extra_attrs=()):
-    for s in shapes(extra_attrs):
+    for s in shapes(extra_attrs) + extra_shapes(extra_attrs):
         if s.name == name:
             return s
     raise KeyError(name)
